@@ -371,8 +371,83 @@ def rule_r9(ctx) -> RuleResult:
                   "a nested {{..}} or [[..]] inside an argument switches list/preformatted recognition back on for the rest of the outer argument",
                   min_instances=5)
 
+TAG_TABLE_READERS = {
+    "core.Wtp.__init__": "copies the table into the context",
+    "node_expand.to_wikitext.recurse": "serialiser has no context; used only to choose between `>` and ` />` for a childless node (comment in the source)",
+}
+
+
+def rule_r10(ctx) -> RuleResult:
+    """Who may read the module-level tag table: a context's own table (`ctx.allowed_html_tags`) also
+    holds the tags registered with `extension_tags=`; parsing decisions taken from the module-level
+    ALLOWED_HTML_TAGS (directly, or through constants computed from it at import) do not know them,
+    so an extension element is auto-closed by the first ordinary tag inside it."""
+    rr = RuleResult("C03.R10", "parsing decisions read the context's tag table, not the module-level one", min_instances=2)
+    for mn, m in ctx.index.modules.items():
+        if mn == "wikihtml":
+            continue
+        for n in ast.walk(m.tree):
+            if isinstance(n, ast.Name) and n.id == "ALLOWED_HTML_TAGS" and isinstance(n.ctx, ast.Load):
+                owner = None
+                p_ = n
+                while p_ in m.parents:
+                    p_ = m.parents[p_]
+                    if isinstance(p_, (ast.FunctionDef, ast.AsyncFunctionDef)):
+                        owner = mn + "." + m.qual[p_]
+                        break
+                owner = owner or (mn + ".<module level>")
+                if owner in TAG_TABLE_READERS:
+                    rr.ok(owner, "reads ALLOWED_HTML_TAGS: " + TAG_TABLE_READERS[owner][:60], {"reader": owner})
+                else:
+                    rr.bad(Finding("C03.R10", m.relpath, owner, "ALLOWED_HTML_TAGS (line {})".format(n.lineno),
+                                   "this code decides from the module-level tag table, which lacks the tags a context registers through "
+                                   "extension_tags: such elements lose their children / are force-closed when they contain or sit in ordinary tags",
+                                   n.lineno))
+    return rr
+
+
+def rule_r11(ctx) -> RuleResult:
+    """A pattern that is anchored at its end only (`...$`) validates a whole string when it is applied
+    with match()/fullmatch(); applied with search() it accepts any text that merely *ends* in a match.
+    For the attribute validators of the table parser that turns a row whose last cell ends in `k=v`
+    (a template with a named argument, inline HTML with an attribute) into a row with bogus attributes
+    and no cells."""
+    rr = RuleResult("C03.R11", "end-anchored validator patterns are applied with match(), never search()", min_instances=1)
+    for dotted, m, f in ctx.index.all_functions():
+        mn = dotted.split(".")[0]
+        if mn not in ("parser", "core"):
+            continue
+        for c in walk_no_nested(f):
+            if not isinstance(c, ast.Call):
+                continue
+            fn_ = unparse(c.func)
+            pat_expr = meth = None
+            if fn_ in ("re.match", "re.search", "re.fullmatch") and c.args:
+                pat_expr, meth = c.args[0], fn_.split(".")[1]
+            elif isinstance(c.func, ast.Attribute) and c.func.attr in ("match", "search", "fullmatch") and isinstance(c.func.value, ast.Name):
+                pat_expr, meth = c.func.value, c.func.attr
+            if pat_expr is None:
+                continue
+            try:
+                pat = str(ctx.index.fold(mn, pat_expr))
+            except Exception:  # noqa: BLE001
+                continue
+            body = re.sub(r"^\(\?[a-zA-Z]+\)", "", pat)
+            end_anchored = body.endswith("$") or body.endswith("\\Z")
+            start_anchored = body.startswith("^") or body.startswith("\\A")
+            if not end_anchored or start_anchored:
+                continue
+            if meth == "search":
+                rr.bad(Finding("C03.R11", m.relpath, dotted, unparse(c)[:70],
+                               "the validator `{}` is anchored at its end only and is applied with search(): any text that ends in a match is "
+                               "accepted (e.g. finished cells `{{{{foo|a=b}}}}` taken for row attributes)".format(unparse(pat_expr)[:40]), c.lineno))
+            else:
+                rr.ok(dotted, unparse(c)[:60], {"fn": dotted, "pattern": unparse(pat_expr)[:40], "method": meth})
+    return rr
+
+
 def run(ctx) -> list:
     rules = [rule_r1(ctx), rule_r2(ctx), rule_r3(ctx), rule_r9(ctx)]
     rules.append(rule_r4(ctx))
-    rules += [rule_r5(ctx), rule_r6(ctx), rule_r7(ctx), rule_r8(ctx)]
+    rules += [rule_r5(ctx), rule_r6(ctx), rule_r7(ctx), rule_r8(ctx), rule_r10(ctx), rule_r11(ctx)]
     return rules
